@@ -32,6 +32,23 @@ pub fn looks_like_scheme(bytes: &[u8]) -> bool {
 	false
 }
 
+/// Checks if the first segment of the input path contains a `:`.
+///
+/// Such a path cannot start a relative reference without a scheme, whether
+/// or not what precedes the `:` is a valid scheme.
+#[inline]
+pub fn first_segment_contains_colon(bytes: &[u8]) -> bool {
+	for &b in bytes {
+		match b {
+			b':' => return true,
+			b'/' => return false,
+			_ => (),
+		}
+	}
+
+	false
+}
+
 #[derive(Debug, PartialEq, Eq)]
 pub enum SchemeAuthorityOrPath {
 	Scheme,
